@@ -46,7 +46,7 @@ def main(tier, seed):
         if kind == 'harness-failure':
             ctx.inconcl('harness failure: ' + exc[-300:]); return
         if kind == 'oom':
-            ctx.bump('allocation_limit_aborts'); return
+            ctx.bump('allocation_limit_aborts'); return True
         ctx.violation('%s:%s' % (kind, top), 'option parsing died on case %d: %s in %s' % (case, kind, top), dict(cmd=cmd, report=exc))
 
     run.run_sharded(exe, [], ctx.n(60000, 3000000), on_line, on_death, seed, timeout_per_case=5)
